@@ -370,3 +370,36 @@ def run_many(bins: dict, jobs: list, *, parallel: int = 8, logdir: str | None = 
     order = {j["name"]: i for i, j in enumerate(jobs)}
     results.sort(key=lambda r: order.get(r.name, 0))
     return results
+
+
+def extract_trace(json_text: str, pid: str, limit: int = 400) -> list:
+    """Compact counterexample: assignments made in harness code (file under /verif/harness) along CBMC's trace."""
+    try:
+        items = json.loads(json_text)
+    except Exception:
+        return ["(trace output not parseable)"]
+    out = []
+    for it in items:
+        if not isinstance(it, dict):
+            continue
+        for r in it.get("result", []) or []:
+            if r.get("property") != pid or "trace" not in r:
+                continue
+            for st in r["trace"]:
+                if st.get("stepType") != "assignment" or st.get("hidden"):
+                    continue
+                sl = st.get("sourceLocation") or {}
+                f = sl.get("file", "")
+                if "/verif/harness" not in f and "gen_" not in f:
+                    continue
+                val = st.get("value") or {}
+                data = val.get("data", val.get("name"))
+                if data is None:
+                    continue
+                lhs = st.get("lhs", "")
+                if lhs.startswith("var_") or lhs.startswith("tmp") or "temp_" in lhs:
+                    continue
+                out.append(f'{os.path.basename(f)}:{sl.get("line")} {sl.get("function", "").split("::")[-1]}: {lhs} = {data}')
+                if len(out) >= limit:
+                    return out
+    return out or ["(no harness-level assignments in the trace)"]
